@@ -30,14 +30,19 @@ def run_case(ctx, case, api=None):
         return
     data, verdicts = built
     expected = AC.expected_regions(case, data, verdicts)
-    api = api or ("function", "method")[case["pcm_seed"] & 1]
+    api = api or ("function", "method", "method_on_region_with_start", "function_on_region_with_start")[(case["pcm_seed"] >> 4) % 4]
     kw = AC.split_kwargs(case, long_names=bool(case["pcm_seed"] & 2))
     try:
         if api == "function":
             regions = list(auditok.split(data, **kw, **AC.audio_kwargs(case, long_names=bool(case["pcm_seed"] & 4))))
-        else:
+        elif api == "method":
             reg = AudioRegion(data, case["rate"], case["width"], case["channels"])
             regions = list(reg.split(**kw))
+        else:
+            # the input is itself a region that carries a start time (as regions yielded by an earlier split() do):
+            # times of the new regions still count from the beginning of THIS input
+            reg = AudioRegion(data, case["rate"], case["width"], case["channels"], start=1.0 + (case["pcm_seed"] % 7) * 0.25)
+            regions = list(reg.split(**kw)) if api.startswith("method") else list(auditok.split(reg, **kw))
     except Exception as exc:
         ctx.case((data, AC.case_json(case)), True)
         ctx.violation("exception:" + type(exc).__name__, {"case": AC.case_json(case), "api": api, "exception": repr(exc)[:300]})
@@ -49,6 +54,10 @@ def run_case(ctx, case, api=None):
     ctx.count("api_" + api)
     ctx.count(f"width_{case['width']}")
     ctx.count(f"channels_{case['channels']}")
+    if case["thr"] == 0:
+        ctx.count("cases_threshold_zero")
+    if regions and not probs_nested(ctx, case, regions, kw):
+        return
     if case["partial"]:
         ctx.count("cases_with_partial_last_window")
         if expected and expected[-1][0] + expected[-1][1] == len(data) // (case["width"] * case["channels"]):
@@ -62,6 +71,26 @@ def run_case(ctx, case, api=None):
         ctx.violation(key, detail)
     if expected and ctx.want_sample():
         ctx.sample({"case": AC.case_json(case), "regions(start_sample,nsamples)": got, "nbytes": len(data)})
+
+
+def probs_nested(ctx, case, regions, kw):
+    """two-step history: split one of the yielded regions again; the inner regions must be the outer region's own bytes
+    at times counted from the beginning of that region."""
+    r = regions[len(regions) // 2]
+    sub = dict(case)
+    try:
+        inner = list(r.split(**kw))
+    except Exception as exc:
+        ctx.violation("nested-split-raises:" + type(exc).__name__, {"case": AC.case_json(case), "exception": repr(exc)[:200]})
+        return False
+    ctx.count("nested_splits")
+    probs, _ = AC.check_regions(inner, case, bytes(r), None)
+    for key, detail in probs:
+        detail["case"] = AC.case_json(case)
+        detail["nested_in_region_starting_at"] = r.start
+        ctx.violation("nested:" + key, detail)
+        return False
+    return True
 
 
 def run_shard(ctx):
@@ -81,6 +110,6 @@ def replay(ctx, case):
 def inconclusive(merged, tier):
     c = merged["counters"]
     return [f"monitor never observed {k}" for k in
-            ("regions_observed", "regions_expected", "api_function", "api_method", "width_1", "width_2", "width_4",
+            ("regions_observed", "regions_expected", "api_function", "api_method", "api_method_on_region_with_start", "api_function_on_region_with_start", "cases_threshold_zero", "nested_splits", "width_1", "width_2", "width_4",
              "channels_1", "channels_2", "channels_3", "cases_with_partial_last_window", "regions_ending_in_partial_window",
              "cases_nonintegral_window") if c.get(k, 0) == 0]
